@@ -1157,7 +1157,7 @@ func TestC04_overlay(t *testing.T) {
 	if ev.Replaying() && ev.ReplayLeg() != "" && ev.ReplayLeg() != t.Name() {
 		t.Skip("replay file is for another leg")
 	}
-	ev.Check(t, col, ev.Scale(ev.IntEnv("VERIF_C04_CHECKS", 2500), ev.IntEnv("VERIF_C04_CHECKS", 12000)), genC04(col), propC04)
+	ev.Check(t, col, ev.Scale(ev.IntEnv("VERIF_C04_CHECKS", 2000), ev.IntEnv("VERIF_C04_CHECKS", 12000)), genC04(col), propC04)
 }
 
 // ---------------------------------------------------------------------------------------
